@@ -457,6 +457,7 @@ func (f *frame) contractCall(fc *FuncContract, callee *ssa.Function, args []sval
 		e := f.specBool(r.E, env)
 		t.cur.Assert(e, "pre/"+site+"/"+r.Label, mergeProps(t.fc.Props, nil))
 	}
+	sinkPlans := f.planSinks(fc, callee, args)
 	if fc.Pure && len(fc.Modifies) == 0 && len(fc.Writes) == 0 {
 		// no state change
 	} else {
@@ -591,10 +592,173 @@ func (f *frame) contractCall(fc *FuncContract, callee *ssa.Function, args []sval
 		}
 		t.cur.Assume(f.specBool(e.E, env))
 	}
+	f.applySinks(sinkPlans)
 	if fc.Trusted {
 		t.assumptions["trusted contract (body not verified): "+fc.Pkg+"."+fc.Name] = true
 	}
 	return out
+}
+
+// ---------------------------------------------------------------------
+// sink rule (callbacks through an interface)
+//
+// The caller's contract declares `sink X implements T.M`: X is an object of the caller's package
+// that it passes to callees as an interface value (an io.Writer). A callee whose contract lists
+// Out(param) may call param.M any number of times; for the callee that changes only the ghost
+// sink, but when the actual argument is boxed(X) it really runs T.M on X. After such a call the
+// caller therefore loses what T.M's (verified) contract lets T.M change -- its modifies fields and
+// writes ranges on X, evaluated before the call -- and gains T.M's type invariant and those of its
+// postconditions that are marked transitive.
+
+type sinkPlan struct {
+	guard  Expr
+	impl   *FuncContract
+	env    *specEnv
+	fields []struct {
+		heap *Cell
+		obj  Expr
+		typ  types.Type
+	}
+	ranges []struct {
+		mem    *Cell
+		lo, hi Expr
+	}
+}
+
+func (f *frame) planSinks(fc *FuncContract, callee *ssa.Function, args []sval) []*sinkPlan {
+	t := f.t
+	if len(t.fc.Sinks) == 0 || f.parent != nil {
+		return nil
+	}
+	var actuals []Expr
+	for _, m := range fc.Modifies {
+		me, err := ParseSpec(m)
+		if err != nil {
+			continue
+		}
+		c, ok := me.(*SCall)
+		if !ok || c.Fun != "Out" || len(c.Args) != 1 {
+			continue
+		}
+		id, ok := c.Args[0].(*SIdent)
+		if !ok {
+			continue
+		}
+		for i, p := range callee.Params {
+			if p.Name() == id.Name && args[i].e != nil {
+				actuals = append(actuals, args[i].e)
+			}
+		}
+	}
+	if len(actuals) == 0 {
+		return nil
+	}
+	// snapshot of the pre-call state for old() in the implementation's transitive clauses
+	snaps := map[string]*Cell{}
+	for _, n := range append([]string{}, t.gorder...) {
+		c := t.globals[n]
+		o := t.freshCell("sinkpre$"+sanitize(n), c.S)
+		t.cur.Assign(o, c)
+		snaps[n] = o
+	}
+	var plans []*sinkPlan
+	for _, sd := range t.fc.Sinks {
+		impl := t.eng.contracts[t.fc.Pkg+"."+sd.Impl]
+		implFn := t.eng.funcs[t.fc.Pkg+"."+sd.Impl]
+		if impl == nil || implFn == nil || impl.Trusted {
+			fail("sink: %s has no verified contract", sd.Impl)
+		}
+		oe, err := ParseSpec(sd.Obj)
+		if err != nil {
+			fail("%v", err)
+		}
+		objv := f.specExpr(oe, f.bodyEnv(false))
+		if objv.typ == nil {
+			fail("sink: %s is untyped", sd.Obj)
+		}
+		boxed := t.boxPtr(objv.e, t.eng.typeID(objv.typ))
+		var g []Expr
+		for _, a := range actuals {
+			g = append(g, Eq(a, boxed))
+		}
+		pl := &sinkPlan{guard: t.newTemp("sinkg", Or(g...)), impl: impl}
+		objT := t.newTemp("sinkobj", objv.e)
+		pl.env = &specEnv{f: f, names: map[string]sval{implFn.Params[0].Name(): {e: objT, typ: objv.typ}}, fn: implFn, atCall: true, oldMap: snaps}
+		for _, m := range impl.Modifies {
+			me, err := ParseSpec(m)
+			if err != nil {
+				fail("%v", err)
+			}
+			for _, lv := range f.specLvals(me, pl.env) {
+				if strings.HasPrefix(lv.heap.Name, "H_$") {
+					continue // ghost state: the callee's own Out(...) frame covers the sink's ghost view
+				}
+				ob := t.newTemp("sinkf", lv.idx)
+				// the implementation's frame must lie inside the caller's own
+				t.checkModField(lv.heap, Ite(pl.guard, ob, th0(t)))
+				pl.fields = append(pl.fields, struct {
+					heap *Cell
+					obj  Expr
+					typ  types.Type
+				}{lv.heap, ob, lv.typ})
+			}
+		}
+		for _, w := range impl.Writes {
+			mem, lo, hi := f.specRange(w.E, pl.env)
+			lo = t.newTemp("sinkwlo", lo)
+			hi = t.newTemp("sinkwhi", hi)
+			t.checkWrite(mem, Ite(pl.guard, lo, hi), hi, "sink/"+sd.Impl)
+			pl.ranges = append(pl.ranges, struct {
+				mem    *Cell
+				lo, hi Expr
+			}{mem, t.newTemp("sinklo", lo), t.newTemp("sinkhi", hi)})
+		}
+		plans = append(plans, pl)
+		t.assumptions["sink rule: callees reach "+sd.Obj+" only through "+sd.Impl+" (interface call); its verified frame, type invariant and transitive postconditions are applied after each such callee"] = true
+	}
+	return plans
+}
+
+func th0(t *fnTrans) Expr { return t.th.AddrLit(0) }
+
+func (f *frame) applySinks(plans []*sinkPlan) {
+	t := f.t
+	th := t.th
+	for _, pl := range plans {
+		for _, fl := range pl.fields {
+			_, es := fl.heap.S.ArrayParts()
+			nv := t.havocTemp("sinknv", es, fl.typ)
+			t.cur.Assign(fl.heap, Store(fl.heap, fl.obj, Ite(pl.guard, nv, Select(fl.heap, fl.obj))))
+		}
+		byMem := map[string][]int{}
+		var order []string
+		for i, r := range pl.ranges {
+			if _, ok := byMem[r.mem.Name]; !ok {
+				order = append(order, r.mem.Name)
+			}
+			byMem[r.mem.Name] = append(byMem[r.mem.Name], i)
+		}
+		for _, name := range order {
+			mem := pl.ranges[byMem[name][0]].mem
+			old := t.newTemp("sinkmem", mem)
+			t.cur.Havoc(mem)
+			a := &Var{"a!k", th.Addr()}
+			var ins []Expr
+			for _, i := range byMem[name] {
+				r := pl.ranges[i]
+				ins = append(ins, And(th.ALe(r.lo, a), th.ALt(a, r.hi)))
+			}
+			// memory allocated during the call (a grown overflow slice) may be written as well
+			ins = append(ins, th.ALe(pl.env.oldMap["allocTop"], a))
+			t.cur.Assume(&Quant{Forall: true, Vars: []*Var{a}, Body: Implies(Not(And(pl.guard, Or(ins...))), Eq(Select(mem, a), Select(old, a))), Pats: [][]Expr{{Select(mem, a)}}})
+		}
+		pl.env.post = true
+		for _, e := range pl.impl.Ensures {
+			if e.Kind == "typeinv" || e.Kind == "transitive" {
+				t.cur.Assume(Implies(pl.guard, f.specBool(e.E, pl.env)))
+			}
+		}
+	}
 }
 
 // crossTheoryCall: caller and callee contract live in different theories. Only
@@ -694,7 +858,7 @@ func (f *frame) dynamicCall(c *ssa.CallCommon) []sval {
 // siteAsserts emits `assert φ @ call name#k` clauses in front of the k-th call (source order) to name.
 func (f *frame) siteAsserts(x *ssa.Call) {
 	t := f.t
-	if f.parent != nil || len(t.fc.Asserts) == 0 {
+	if f.parent != nil || (len(t.fc.Asserts) == 0 && len(t.fc.GhostAt) == 0) {
 		return
 	}
 	if t.callSites == nil {
@@ -732,6 +896,29 @@ func (f *frame) siteAsserts(x *ssa.Call) {
 	site, ok := t.callSites[x]
 	if !ok {
 		return
+	}
+	if lvs, ok := t.fc.GhostAt[site]; ok {
+		// initial ghost state of an object this function allocated (definitional)
+		env := f.bodyEnv(false)
+		for _, g := range lvs {
+			ge, err := ParseSpec(g)
+			if err != nil {
+				fail("%v", err)
+			}
+			for _, lv := range f.specLvals(ge, env) {
+				if lv.kind != lvField || !strings.HasPrefix(lv.heap.Name, "H_$") {
+					fail("ghost-at: %s is not ghost state", g)
+				}
+				_, es := lv.heap.S.ArrayParts()
+				t.cur.Assign(lv.heap, Store(lv.heap, lv.idx, t.havocTemp("ghost", es, lv.typ)))
+			}
+		}
+		for _, d := range t.fc.GhostAtDefs {
+			if d.Site == site {
+				t.cur.Assume(f.specBool(d.E, env))
+			}
+		}
+		t.assumptions["initial ghost state of an object allocated by "+t.fc.Pkg+"."+t.fc.Name+" (definitional)"] = true
 	}
 	for _, a := range t.fc.Asserts {
 		if a.Site == site {
